@@ -7,5 +7,5 @@ CONSTANTS
   Addrs = {2, 3}
   Gens = {0, 1, 2}
   Incs = {0, 1, 2}
-INVARIANTS Monotone IsJoin Commutes Idempotent OneRowPerAddress SelfReapply Exchange CountOk
+INVARIANTS Monotone IsJoin Commutes Idempotent OneRowPerAddress SelfReapply Exchange CountOk AgreesWithRecordLevel
 CHECK_DEADLOCK FALSE
